@@ -313,6 +313,9 @@ def compile_c(src, exe, cwd, extra=None, backend='nr', timeout=120):
     cmd = list(backends.BACKENDS[backend]['cc']) + ["-o", exe, src]
     if extra:
         cmd[1:1] = extra
+    if os.environ.get("VERIF_CC_EXTRA"):
+        # developer aid (never set by the registered commands): e.g. --coverage, to see which skeleton lines the scanners reach
+        cmd[1:1] = os.environ["VERIF_CC_EXTRA"].split()
     return run(cmd, cwd=cwd, timeout=timeout)
 
 
